@@ -57,7 +57,11 @@ impl<'a> DwarfUnitParser<'a> {
             lines = parse_lines(&mut rows)?;
             files = parse_files(self.dwarf, &unit, &rows)?;
         }
-        lines.sort_unstable_by_key(|x| x.address);
+        // A row that ends a sequence goes before other rows with the same address
+        // (typically the first row of the next function): a lookup by address takes the last one,
+        // and the end of a sequence is not a place of the instruction that follows it.
+        // The sort is stable, rows of one sequence with the same address keep the line program order.
+        lines.sort_by_key(|x| (x.address, !x.end_sequence()));
 
         let mut ranges = self
             .dwarf
